@@ -6,7 +6,7 @@
    calcPATSectionLength are re-translated from the source on every run. *)
 From Coq Require Import ZArith List Lia.
 Require Import Base.Bits Base.Iter Base.Wr Gen.Consts Gen.Types Gen.Preds Model.Packet Model.Psi.
-Require Import Model.Desc Spec.CrcSpec Spec.PsiSpec Proofs.PsiProofs Proofs.PsiParse Proofs.PsiParsePmt Proofs.PsiWritePmt Proofs.PsiDescLink.
+Require Import Model.Desc Spec.CrcSpec Spec.DvbSpec Spec.PsiSpec Proofs.PsiProofs Proofs.PsiParse Proofs.PsiParsePmt Proofs.PsiWritePmt Proofs.PsiDescLink Proofs.PsiParseSi Proofs.PsiSiLink.
 Import ListNotations.
 Open Scope Z_scope.
 
@@ -177,6 +177,50 @@ Theorem C13_write_pmt : forall p c h sh d ext_pn pcr pds pbytes xs, 0 <= p < 256
 Proof. exact write_pmt_closed. Qed.
 Print Assumptions C13_write_pmt.
 
+(* ---- SDT, NIT, EIT, TOT (EN 300 468 5.2) ----
+   C13_parse_sdt / _nit / _eit / _tot: for every well-formed section of these types -- both SDT ids (0x42, 0x46), both
+   NIT ids (0x40, 0x41), all 34 EIT ids (0x4e..0x6f), the TOT (0x73); any number of services / transport streams /
+   events (induction over the lists), all identifier values, every running_status / free_CA / EIT flag value --
+   parsePSISection on the reference encoding (Spec/PsiSpec.v) yields exactly the content with every generic header
+   field and the CRC_32, wherever the section lies in a unit (sec_parses, so the sections can be mixed freely in
+   C13_multi).  MJD/BCD times and durations are C15's encodings (c15_time / c15_dur: MJD 15079..65535, two BCD
+   digits per field), discharged with C15's decode theorems.  Descriptor loops are ABSTRACTED as for the PMT:
+   desc_enc relates a descriptor list to its bytes; the two premises say such bytes are bytes (< 4096 of them) and
+   that parseDescriptors inverts `4 bits, length(12), bytes` wherever it lies -- C14's round trip, which C14 does
+   not provide as a theorem yet (C14_tlv gives the framing only).  The premises are satisfiable: no_desc16 (empty
+   loops) fulfils them (C13_no_desc_premises), which closes the four theorems for sections without descriptors. *)
+Theorem C13_no_desc_premises : desc_premises no_desc16.
+Proof. exact no_desc_premises. Qed.
+Print Assumptions C13_no_desc_premises.
+
+Theorem C13_parse_sdt : forall desc_enc, desc_premises desc_enc ->
+  forall tid ssi pb ext ver cni sn lsn onid xs, sdt_wf desc_enc tid ext ver sn lsn onid xs ->
+  sec_parses (spec_section tid ssi pb (spec_sdt_body ext ver cni sn lsn onid (map sv_spec xs)))
+             (sdt_section_value tid ssi pb ext ver cni sn lsn onid xs).
+Proof. exact sdt_parses_p. Qed.
+Print Assumptions C13_parse_sdt.
+
+Theorem C13_parse_nit : forall desc_enc, desc_premises desc_enc ->
+  forall tid ssi pb ext ver cni sn lsn nds nbytes xs, nit_wf desc_enc tid ext ver sn lsn nds nbytes xs ->
+  sec_parses (spec_section tid ssi pb (spec_nit_body ext ver cni sn lsn nbytes (map ts_spec xs)))
+             (nit_section_value tid ssi pb ext ver cni sn lsn nds nbytes xs).
+Proof. exact nit_parses_p. Qed.
+Print Assumptions C13_parse_nit.
+
+Theorem C13_parse_eit : forall desc_enc, desc_premises desc_enc ->
+  forall tid ssi pb ext ver cni sn lsn tsid onid slsn ltid xs,
+  eit_wf desc_enc c15_time c15_dur tid ext ver sn lsn tsid onid slsn ltid xs ->
+  sec_parses (spec_section tid ssi pb (spec_eit_body ext ver cni sn lsn tsid onid slsn ltid (map ev_spec xs)))
+             (eit_section_value tid ssi pb ext ver cni sn lsn tsid onid slsn ltid xs).
+Proof. exact eit_parses_p. Qed.
+Print Assumptions C13_parse_eit.
+
+Theorem C13_parse_tot : forall desc_enc, desc_premises desc_enc ->
+  forall ssi pb t tb ds bytes, c15_time t tb -> desc_enc ds bytes -> 7 + Z.of_nat (length bytes) + 4 < 4096 ->
+  sec_parses (spec_section 115 ssi pb (spec_tot_body tb bytes)) (tot_section_value ssi pb t tb ds bytes).
+Proof. exact tot_parses_p. Qed.
+Print Assumptions C13_parse_tot.
+
 (* non-vacuity: the hypotheses are satisfiable and the statements evaluate as claimed on a concrete PAT with
    edge values; two PAT sections followed by stuffing give two sections and the stop marker *)
 Example C13_example_wf : pat_wf 65535 31 255 0 [(0, 16); (1, 4096); (65535, 8191)].
@@ -201,4 +245,23 @@ Example C13_example_pmt :
   Ok {| PSIData_PointerField := 0;
         PSIData_Sections := [pmt_section_value true false 1 3 true 0 0 256 [] []
                                [(27, 256, [], []); (15, 8191, [], [])]] |}.
+Proof. vm_compute. reflexivity. Qed.
+
+(* an SDT with two services, an EIT with one event (2000-01-01 12:34:56, 01:30:00) and a TOT, empty descriptor
+   loops, followed by stuffing: decoded by the model exactly as the theorems say *)
+Example C13_example_si :
+  let sdt := spec_section 66 true true (spec_sdt_body 1 2 true 0 0 3 [(10, true, false, 4, true, []); (11, false, true, 1, false, [])]) in
+  let eit := spec_section 78 true true (spec_eit_body 10 0 true 0 0 1 3 0 78
+               [(7, spec_time_bytes 51544 12 34 56, [bcd_byte 1; bcd_byte 30; bcd_byte 0], 4, false, [])]) in
+  let tot := spec_section 115 false true (spec_tot_body (spec_time_bytes 51544 12 34 56) []) in
+  parse_psi_data_bytes (0 :: sdt ++ eit ++ tot ++ [255]) =
+  Ok {| PSIData_PointerField := 0;
+        PSIData_Sections :=
+          [ sdt_section_value 66 true true 1 2 true 0 0 3
+              [mk_sdt_svc 10 true false 4 true [] []; mk_sdt_svc 11 false true 1 false [] []];
+            eit_section_value 78 true true 10 0 true 0 0 1 3 0 78
+              [mk_eit_ev 7 (spec_unix 51544 12 34 56) (spec_time_bytes 51544 12 34 56)
+                         (spec_duration_ns 1 30 0) [bcd_byte 1; bcd_byte 30; bcd_byte 0] 4 false [] []];
+            tot_section_value false true (spec_unix 51544 12 34 56) (spec_time_bytes 51544 12 34 56) [] [];
+            stop_section 255 ] |}.
 Proof. vm_compute. reflexivity. Qed.
